@@ -273,7 +273,7 @@ def classify(line, tags, model_out, impl_out, verdict):
 
 
 SPEC = {
-    'gen_parts': ['Consts'],
+    'gen_parts': ['Consts', 'Lex', 'SaveFmt', 'Inc'],
     'allowed_axioms': (),
     'runner': 'c07',
     'bin': 'c07',
@@ -281,10 +281,38 @@ SPEC = {
     'classify': classify,
     'model_timeout': 300,
     'impl_timeout': 300,
-    'rule': 'random revision histories (1-5 revisions; each replaces a random subset, adds objects, optionally frees some; '
-            'per-revision cross-reference table / stream / hybrid; plain objects or object streams; optional bytes before the header) '
-            'assembled byte by byte, every prefix loaded and compared with latest-revision-wins; non-trivial = at least 2 revisions',
-    'extra_trusted': ['C07: gen/histgen.py (reference writer of hand-assembled histories and their layout)'],
+    'rule': 'random revision histories (1-5 revisions; each replaces a random subset, adds objects, optionally frees some or bumps '
+            'generations; per-revision cross-reference table / stream / hybrid; plain objects or object streams; optional bytes before '
+            'the header) assembled byte by byte by gen/histgen.py, EVERY prefix loaded and compared with latest-revision-wins and with '
+            'the abstract loader model (merged table, trailer, max_id, objects); random base documents saved by lopdf (table/stream, '
+            'optionally prefixed with junk, some > 64 KiB) and hand-assembled histories, then 1-3 update steps (set/add/clone/setkey/'
+            'get_or_create_resources/add_xobject) replayed through IncrementalDocument with save_to + reload after each step, output '
+            'compared byte for byte with the model; non-trivial = at least 2 revisions or any replay',
+    'partial_note': 'C07_full (Proofs/C07Full.v) is not proved at byte level: the loader and the reference writer are not in Coq yet. '
+                    'Proved: the merge/Prev-loop/object-loading core on layouts (A1-A6), refutations on the three open classes (A7), '
+                    'the save side completely at byte level (B1-B3), reload/re-loadability at table level (B4-B5).',
+    'extra_trusted': ['C07: gen/histgen.py (reference writer of hand-assembled histories and of the layout the abstract loader model reads)',
+                      'C07: the layout abstraction (what the byte-level parsers find where) is tied to the crate only by correspondence '
+                      '(Model/Xref.v / Model/Loader.v of C02/C01 are to replace it)',
+                      'C07: Model/Save.v (c01) pieces reused by Model/Incremental.v'],
+}
+
+
+MANIFEST = {
+    'level_text': 'Machine-checked (Coq) about the models of Xref::merge / the Prev loop / object loading (src/reader.rs, src/xref.rs as '
+                  'repaired by f28e935, 44beb46) and of IncrementalDocument + save_internal (as repaired by bb85a17): for all chains of '
+                  'sections every object number gets the entry of the newest section that has one (merge_chain_latest, read on every '
+                  'Prev chain, cycles cut, termination on all layouts); Normal entries win, Compressed entries name their container; '
+                  'incremental save output = previous bytes ++ only the new objects at exact header-relative offsets ++ one section '
+                  'with Prev = previous xref_start, for all inputs (prefix also on failure); edits never touch the previous view; '
+                  'after an append the merged table is new-over-old and the file is again a chain (induction over saves). The '
+                  'file-level statement C07_full is a Definition; it is REFUTED on three open classes (freed objects come back, '
+                  'hybrid XRefStm order, stale generation-0 object-stream members) with witnesses replayed on the crate.',
+    'level_note': 'Partial (rung 2): byte-level parsing is abstracted by layouts and tied by differential runs only (every history prefix: '
+                  'merged table + objects; every IncrementalDocument step: bytes equal). Trusted: Coq kernel; translator parts Inc/'
+                  'SaveFmt/Lex/Consts; gen/histgen.py; Model/Save.v (c01); extraction/OCaml driver; Rust harness. No axioms.',
+    'technique': 'Coq proofs by induction over revision chains and write loops + vm_compute refutations + differential correspondence',
+    'design_ref': 'DESIGN.md 6 C07',
 }
 
 
